@@ -212,34 +212,95 @@ func (c *Ctx) RuleEscMatch() *Result {
 					}
 				}
 			}
-			pred := func(cond ssa.Value, val bool) bool {
-				cc, ok := cond.(*ssa.Call)
-				if !ok || val {
-					return false
+			// the searched text: Find*Index(text) or Find*Index(text[offset:])
+			subject := stripConv(call.Call.Args[1])
+			var baseText, offsetV ssa.Value = subject, nil
+			if sl, ok := subject.(*ssa.Slice); ok && sl.High == nil && sl.Low != nil {
+				baseText, offsetV = sl.X, sl.Low
+			}
+			// positions relative to the searched slice vs. absolute positions in the base text
+			absolute := map[ssa.Value]bool{}
+			if offsetV == nil {
+				for v := range derived {
+					absolute[v] = true
 				}
-				sf := staticFn(&cc.Call)
-				return isEscapedLike(sf) && len(cc.Call.Args) == 2 && derived[cc.Call.Args[1]]
+			} else {
+				changed := true
+				for changed {
+					changed = false
+					for v := range derived {
+						b, ok := v.(*ssa.BinOp)
+						if !ok || absolute[v] {
+							continue
+						}
+						if b.Op == token.ADD && ((b.X == offsetV && derived[b.Y]) || (b.Y == offsetV && derived[b.X])) {
+							absolute[v], changed = true, true
+						}
+						if (b.Op == token.ADD || b.Op == token.SUB) && absolute[b.X] && isConst(b.Y) {
+							absolute[v], changed = true, true
+						}
+					}
+				}
 			}
 			var problems []string
+			pred := func(text ssa.Value) func(cond ssa.Value, val bool) bool {
+				return func(cond ssa.Value, val bool) bool {
+					cc, ok := cond.(*ssa.Call)
+					if !ok || val {
+						return false
+					}
+					sf := staticFn(&cc.Call)
+					if !isEscapedLike(sf) || len(cc.Call.Args) != 2 || !derived[cc.Call.Args[1]] {
+						return false
+					}
+					return text == nil || stripConv(cc.Call.Args[0]) == stripConv(text)
+				}
+			}
 			cuts := 0
 			for v := range derived {
 				for _, r := range referrers(v) {
+					var text ssa.Value
 					isCut := false
 					switch x := r.(type) {
 					case *ssa.Slice:
-						isCut = true
+						isCut, text = true, x.X
 					case *ssa.Call:
 						sf := staticFn(&x.Call)
-						if sf != nil && c.P.IsRepoFn(sf) && !isEscapedLike(sf) {
+						if sf != nil && c.P.IsRepoFn(sf) {
+							if isEscapedLike(sf) {
+								// the escape test itself: position must be absolute in the text it is asked about
+								if !absolute[v] && stripConv(x.Call.Args[0]) == stripConv(baseText) {
+									problems = append(problems, fmt.Sprintf("IsEscaped at %s is asked about a position relative to the searched slice, not a position in the text", c.P.InstrPos(x)))
+								}
+								continue
+							}
 							isCut = true
+							for _, a := range x.Call.Args {
+								if bt, ok := a.Type().Underlying().(*types.Basic); ok && bt.Kind() == types.String {
+									text = a
+									break
+								}
+							}
+						}
+					case *ssa.Phi:
+						// stored as the next search offset: must be an absolute position
+						if offsetV != nil && ssa.Value(x) == offsetV && !absolute[v] {
+							problems = append(problems, fmt.Sprintf("a position relative to the searched slice is stored as the next absolute search offset (%s): with two or more escaped look-alikes the search position stops advancing and generate never terminates", c.P.InstrPos(call)))
 						}
 					}
 					if !isCut {
 						continue
 					}
 					cuts++
-					if !c.guardedByEdges(r, pred) {
-						problems = append(problems, fmt.Sprintf("the text is cut at the match position at %s without first asking whether the %q found there is escaped", c.P.InstrPos(r), string(meta)))
+					if text != nil && stripConv(text) == stripConv(baseText) && !absolute[v] {
+						problems = append(problems, fmt.Sprintf("the text is cut at %s with a position that is relative to the searched slice", c.P.InstrPos(r)))
+					}
+					if !c.guardedByEdges(r, pred(text)) {
+						if c.guardedByEdges(r, pred(nil)) {
+							problems = append(problems, fmt.Sprintf("the escape test that guards the cut at %s looks at a different text than the one that is cut (positions in the two texts differ once something was removed)", c.P.InstrPos(r)))
+						} else {
+							problems = append(problems, fmt.Sprintf("the text is cut at the match position at %s without first asking whether the %q found there is escaped", c.P.InstrPos(r), string(meta)))
+						}
 					}
 				}
 			}
@@ -596,8 +657,8 @@ func (c *Ctx) RuleSanitize() *Result {
 				return
 			}
 			if strings.Contains(c.passKind(sf), "print") && call.Type().Underlying().String() == "string" {
-				// the last printer in dominance order
-				if chainStart == nil || instrDominates(chainStart, call) {
+				// the first printer in dominance order: the chain is followed forward from it
+				if chainStart == nil || instrDominates(call, chainStart) {
 					chainStart = call
 				}
 			}
@@ -644,20 +705,35 @@ func (c *Ctx) RuleSanitize() *Result {
 		have := map[string]bool{}
 		var order []string
 		flagsAt, printAfter := -1, false
+		lastPrint := -1
 		for i, s := range steps {
+			if strings.Contains(s.kind, "print") {
+				lastPrint = i
+			}
+		}
+		for i, s := range steps {
+			order = append(order, load.FnName(staticFn(&s.call.Call))+"["+s.kind+"]")
+			if i <= lastPrint {
+				continue // whatever ran before the regex was printed for the last time is undone by the printer
+			}
 			for _, k := range strings.Split(s.kind, "+") {
 				if k != "" {
 					have[k] = true
 				}
 			}
-			order = append(order, load.FnName(staticFn(&s.call.Call))+"["+s.kind+"]")
 			if strings.Contains(s.kind, "flags") {
 				flagsAt = i
 			}
-			if flagsAt >= 0 && i > flagsAt && strings.Contains(s.kind, "print") {
-				printAfter = true
+		}
+		if lastPrint >= 0 {
+			printAfter = false
+			for i, s := range steps[:lastPrint+1] {
+				if strings.Contains(s.kind, "flags") && i < lastPrint {
+					printAfter = true
+				}
 			}
 		}
+		_ = flagsAt
 		var problems []string
 		for _, k := range []string{"hex", "quote", "backslash", "vt", "flags"} {
 			if !have[k] {
